@@ -91,6 +91,19 @@ def gen_cases(ctx):
         nrow = rng.choice([1, 2, 4, 6, 9])
         cases.append({"op": "inproc", "helper": h, "kind": kind, "args": C07.gen_args(rng, h), "nomodel": True,
                       "vals": [rng.choice(pool) for _ in range(nrow)], "g": [rng.randint(0, 2) for _ in range(nrow)]})
+    # missing values KEPT (drop_na=False) inside groups of several elements: whatever a helper does with them (propagate,
+    # ignore, count) it does the same on both paths — "the same missing-value positions"
+    for _ in range(32 if ctx.tier == "quick" else 500):
+        h = rng.choice(["quantile", "quantile", "mean", "sum", "min", "max", "std", "var", "count", "first", "last", "nth", "any", "all"])
+        a = C07.gen_args(rng, h)
+        if h not in ("all", "any"):
+            a["drop_na"] = False
+        if h in ("std", "var"):
+            a["ddof"] = 0
+        nrow = rng.choice([5, 6, 9])
+        vals = [rng.choice(["nan", 1.0, 2.0, 3.0, 4.0, 2.5]) for _ in range(nrow)]
+        vals[rng.randrange(nrow)] = "nan"
+        cases.append({"op": "inproc", "helper": h, "kind": "float", "args": a, "vals": vals, "g": [rng.randint(0, 1) for _ in range(nrow)]})
     # several helpers on the same column in ONE aggregate() call ("in the same call")
     nm = 60 if ctx.tier == "quick" else 1500
     for _ in range(nm):
